@@ -476,4 +476,19 @@ def _patch_variants():
     return out
 
 
+def _mech_variants():
+    """mechanical one-line mutants (rules/mutgen.py) selected from a bin/mutsweep run by bin/mkmech and reviewed: each is a genuine change of behaviour that the named
+    rule instance states; they confirm (arm) instances that no hand-written or sub-agent-written variant happened to hit"""
+    import json, os
+    here = os.path.dirname(os.path.abspath(__file__))
+    pth = os.path.join(here, "mech_variants.json")
+    if not os.path.exists(pth):
+        return []
+    out = []
+    for v in json.load(open(pth))["variants"]:
+        out.append(dict(id="mech:" + v["id"], prop=v["prop"], file=v["file"], line=v["line"], before=v["before"], after=v["after"], expect=v["expect"]))
+    return out
+
+
+MUTANTS += _mech_variants()
 MUTANTS += _patch_variants()
